@@ -84,14 +84,17 @@ class Emitted:
         self.prologue = []
         self.trybody = None
         self.handler = None
+        trys = [st for st in fn.body if isinstance(st, ast.Try)]
+        main = trys[-1]
+        self.slot_prologue = trys[:-1]     # `try: __slot_x = econtext[...].pop() except: ... = None`
         for st in fn.body:
-            if isinstance(st, ast.Try):
+            if st is main:
                 self.trybody, self.handler = st.body, st.handlers[0].body
             else:
                 self.prologue.append(st)
 
     def schema_text(self, name='schema'):
-        body = '\n'.join(ast.unparse(s) for s in self.trybody)
+        body = '\n'.join(ast.unparse(s) for s in list(self.slot_prologue) + list(self.trybody))
         return 'def %s():\n%s\n' % (name, '\n'.join('    ' + ln for ln in body.split('\n')))
 
     def assigned_locals(self):
@@ -107,6 +110,15 @@ class Emitted:
 # symbolic render state
 # ---------------------------------------------------------------------------
 UNBOUND_OBJ = object()
+HOLE_RE = r'<\?python __hole__\(\d+, __stream\) \?>'
+
+
+def hole(k):
+    """schema text of hole k; `__stream` is rewritten by the code generator to the stream the
+    surrounding code appends to (the main stream or a translation sub-stream)"""
+    return '<?python __hole__(%d, __stream) ?>' % k
+
+
 SCOPE = 'k3::Scope'
 RCTX = 'k3::dict'
 
@@ -162,10 +174,15 @@ class K3State:
         g['E0'] = (self.econtext.fields['local'].has, self.econtext.fields['local'].val,
                    self.econtext.fields['root'].has, self.econtext.fields['root'].val)
         g['G0'] = (self.rcontext.fields['m'].has, self.rcontext.fields['m'].val)
+        # established by PageTemplate.render (setdefault('target_language', None), 'repeat')
+        for nm in ('target_language', 'repeat'):
+            kt = z3.StringVal(nm)
+            I.assume(z3.Or(z3.Select(self.econtext.fields['local'].has, kt),
+                           z3.Select(self.econtext.fields['root'].has, kt)))
         g['econtext'] = self.econtext
         g['rcontext'] = self.rcontext
         g['tokens'] = em.tokens
-        g['all_holes'] = sorted({int(m) for m in re.findall(r'__hole__\((\d+)\)', em.schema_text())})
+        g['all_holes'] = sorted({int(m) for m in re.findall(r'__hole__\((\d+)', em.schema_text())})
 
     def env(self):
         I = self.I
@@ -190,10 +207,20 @@ class K3State:
             '__re_whitespace': VFunc('__re_whitespace', impl=self.re_whitespace),
             '__chain': VFunc('__chain', impl=self.chain),
             'nothing': NONE,
+            '_deque': VFunc('_deque', impl=lambda I, a, k, n: VRec('k3::deque', {'items': a[0]})),
         }
+        for fname in self.em.functions:
+            if fname not in e and fname != self.spec.get('fname', 'render'):
+                # sibling render functions of the same module (in-template macros)
+                e[fname] = VAny(Val.obj(z3.IntVal(conc_oid(('function', fname)))))
+                I.ghost.setdefault('module_functions', {})[fname] = e[fname]
         e['__tokens'] = TokensTable(self.em.tokens)
         for nm, node in self.em.statics.items():
-            e[nm] = VConc(('static', nm))
+            try:
+                val = ast.literal_eval(node)
+            except Exception:
+                val = ('static', nm)
+            e[nm] = lit(val) if isinstance(val, (str, int, bool, type(None))) else VConc(val)
         for nm in self.em.module_names:
             if nm.startswith('_') and nm not in e and not nm.startswith('__'):
                 e.setdefault(nm, VConc(('symbol', nm)))
@@ -244,9 +271,10 @@ class K3State:
             g['probe_raised'].setdefault(n, []).append(False)
             return v
         g['probe_raised'].setdefault(n, []).append(True)
-        exc = VExc(None, [], ecls=z3.Int('exc!e%d!%d' % (n, occ)))
+        exc = new_sym_exc(I, 'exc!e%d!%d' % (n, occ))
         exc.extra['origin'] = ('probe', n)
         g['raised_exc'] = exc
+        g.setdefault('probe_exc', {}).setdefault(n, []).append(exc)
         raise Raised(exc)
 
     # -- holes (HoleC) -------------------------------------------------------
@@ -255,7 +283,9 @@ class K3State:
         g = I.ghost
         occ = len([1 for ev in g['T'] if ev[0] == 'hole' and ev[1] == k])
         lo_, ro_ = self.econtext.fields['local'], self.econtext.fields['root']
-        g['T'].append(('hole', k, I.env.get('__token'), (lo_.has, lo_.val, ro_.has, ro_.val)))
+        g['T'].append(('hole', k, I.env.get('__token'), (lo_.has, lo_.val, ro_.has, ro_.val),
+                       (I.env.get('__i18n_domain'), I.env.get('__i18n_context'),
+                        I.env.get('target_language'))))
         ix = g.get('loop_index')
         if ix is not None:
             f = z3.Function('out!%d' % k, z3.IntSort(), z3.StringSort())
@@ -265,8 +295,13 @@ class K3State:
         g['hole_out'].setdefault(k, []).append(out)
         nel = z3.Int(fresh_name('out_elems'))
         I.assume(nel >= 0)
-        cur = I.env.get('__stream')
-        (cur if isinstance(cur, KText) else self.stream).append_text(out, nel)
+        cur = args[1] if len(args) > 1 else self.stream
+        if isinstance(cur, KText):
+            cur.append_text(out, nel)
+        elif isinstance(cur, VList):
+            cur.items.append(VSeg(out, nel))     # a translation sub-stream (plain list)
+        else:
+            raise Unsupported('hole output stream %r' % (cur,))
         # locals a child may assign
         for nm in list(I.env):
             if nm in SHARED_LOCALS or nm.startswith(SHARED_PREFIXES):
@@ -306,9 +341,10 @@ class K3State:
             rec.fields[fld].has, rec.fields[fld].val = f.has, f.val
         for nm in ('__i18n_domain', '__i18n_context', 'target_language'):
             I.env[nm] = fresh(ANY, 'after_raise' + nm)
-        exc = VExc(None, [], ecls=z3.Int('exc!h%d!%d' % (k, occ)))
+        exc = new_sym_exc(I, 'exc!h%d!%d' % (k, occ))
         exc.extra['origin'] = ('hole', k)
         g['raised_exc'] = exc
+        g.setdefault('hole_exc', {}).setdefault(k, []).append(exc)
         raise Raised(exc)
 
     # -- helpers emitted into every render function (K2 contracts) ------------
@@ -343,11 +379,47 @@ class K3State:
         return r
 
     def re_whitespace(self, I, args, kwargs, node):
-        f = z3.Function('collapse_ws', z3.StringSort(), z3.StringSort())
-        return VStr(f(models.strterm(args[0])))
+        return collapse_ws(args[0])
 
     def chain(self, I, args, kwargs, node):
         raise Unsupported('__chain')
+
+    def external_call(self, I, callee, args, kwargs):
+        """a call that leaves the render function: a macro's render function (same template or
+        another one), a slot filler, or the on-error handler.  Contract (HoleC for callees):
+        it may append to the stream it is given, may add/overwrite entries of the rcontext it is
+        given, cannot touch the caller's scope object (it receives a copy), and may raise."""
+        g = I.ghost
+        lo_, ro_ = self.econtext.fields['local'], self.econtext.fields['root']
+        g.setdefault('extcalls', []).append({
+            'callee': callee, 'args': list(args), 'kwargs': dict(kwargs),
+            'i18n': (I.env.get('__i18n_domain'), I.env.get('__i18n_context'),
+                     I.env.get('target_language'))})
+        nth = len(g['extcalls']) - 1
+        g['T'].append(('extcall', nth))
+        for a in args:
+            if isinstance(a, KText):
+                out = z3.String(fresh_name('ext_out!%d' % nth))
+                nel = z3.Int(fresh_name('ext_n'))
+                I.assume(nel >= 0)
+                g['extcalls'][-1]['out'] = out
+                a.append_text(out, nel)
+            if isinstance(a, VRec) and a.cls == RCTX:
+                m = a.fields['m']
+                nm = fresh(Ty('map', [STR, ANY]), 'G_after_call')
+                kk = z3.String(fresh_name('kg'))
+                I.assume(z3.ForAll([kk], z3.Implies(z3.Select(m.has, kk), z3.Select(nm.has, kk))))
+                m.has, m.val = nm.has, nm.val
+        outcome = I.path.choose(2, 'extcall-%d' % nth)
+        g['extcalls'][-1]['raised'] = (outcome == 1)
+        if outcome == 1:
+            exc = new_sym_exc(I, 'exc!x%d' % nth)
+            exc.extra['origin'] = ('extcall', nth)
+            g['raised_exc'] = exc
+            raise Raised(exc)
+        r = fresh(ANY, 'ext_result')
+        g['extcalls'][-1]['result'] = r
+        return r
 
     def repeat_call(self, I, args, kwargs, node):
         """getname('repeat')(key, iterable): tal.RepeatDict.__call__ contract:
@@ -408,6 +480,24 @@ class KText(V):
         # the remaining text is some prefix we know nothing about
         self.text = z3.String(fresh_name('unknown_prefix'))
         self.count = f
+
+
+def collapse_ws(v):
+    """re.compile(r'\\s+').sub(' ', s): exact on constants, uninterpreted otherwise"""
+    t = z3.simplify(models.strterm(v))
+    if z3.is_string_value(t):
+        return VStr(re.sub(r'\s+', ' ', models.decode_z3_string(t.as_string())))
+    f = z3.Function('collapse_ws', z3.StringSort(), z3.StringSort())
+    return VStr(f(t))
+
+
+class VSeg(V):
+    """an unknown number of list elements whose joined text is `text` (a hole's output inside
+    a translation sub-stream)"""
+    kind = 'seg'
+
+    def __init__(self, text, n):
+        self.t, self.n = text, n
 
 
 class TokensTable(V):
@@ -506,6 +596,27 @@ def _bound_value(present, value):
     return VAny(z3.If(present, value, Val.obj(z3.IntVal(conc_oid(UNBOUND_OBJ)))))
 
 
+def _exc_classes():
+    import builtins
+    return [c for c in vars(builtins).values()
+            if isinstance(c, type) and issubclass(c, BaseException)]
+
+
+def new_sym_exc(I, tag):
+    """a symbolic exception instance of an arbitrary class; the builtin class hierarchy is
+    axiomatised for it (isinstance of a subclass implies isinstance of its bases)"""
+    ecls = z3.Int(tag)
+    exc = VExc(None, [], ecls=ecls)
+    f = z3.Function('exc_subclass', z3.IntSort(), z3.IntSort(), z3.BoolSort())
+    for c in _exc_classes():
+        for b in c.__mro__[1:]:
+            if b is object:
+                continue
+            I.assume(z3.Implies(f(ecls, z3.IntVal(conc_oid(c))), f(ecls, z3.IntVal(conc_oid(b)))))
+    I.assume(f(ecls, z3.IntVal(conc_oid(BaseException))))
+    return exc
+
+
 def k3_prims():
     def S(I, a, k, n):
         return VStr(I.ghost['stream'].text)
@@ -554,6 +665,18 @@ def k3_prims():
         d = I.ghost['probe_raised'] if kind == 'eval' else I.ghost['hole_raised']
         xs = d.get(num, [])
         return VBool(bool(xs) and xs[-1])
+
+    def exc_in(I, a, k, n):
+        """exc_in('e1', 'AttributeError', ...): the exception raised by (the last occurrence of)
+        that probe/hole is an instance of one of the named builtin classes"""
+        import builtins
+        kind, num = _ev_key(_c(a[0]))
+        d = I.ghost.get('probe_exc' if kind == 'eval' else 'hole_exc', {})
+        xs = d.get(num, [])
+        if not xs:
+            return VBool(False)
+        classes = [getattr(builtins, _c(x)) for x in a[1:]]
+        return VBool(models.sym_exc_isinstance(xs[-1], classes))
 
     def exc_is_exception(I, a, k, n):
         exc = I.ghost.get('raised_exc')
@@ -641,6 +764,118 @@ def k3_prims():
                       z3.Select(ro.val, kq) == z3.Select(rv, kq))
         return VBool(z3.ForAll([kq], z3.Implies(z3.Not(z3.Or(excl + [z3.BoolVal(False)])), same)))
 
+    def translate_arg(I, a, k, n):
+        """translate_arg(i, 'msgid'|'mapping'|'default'|'domain'|'context'|'target_language')"""
+        i, nm = _c(a[0]), _c(a[1])
+        calls = I.ghost['translates']
+        if i >= len(calls):
+            return fresh(ANY, 'no_such_translate_call')
+        args, kwargs, r = calls[i]
+        if nm == 'msgid':
+            return args[0]
+        return kwargs.get(nm, NONE)
+
+    def translate_result(I, a, k, n):
+        i = _c(a[0])
+        calls = I.ghost['translates']
+        return calls[i][2] if i < len(calls) else fresh(ANY, 'no_such_translate_call')
+
+    def normalize(I, a, k, n):
+        """the message-id normalisation: whitespace collapsed, then trimmed"""
+        return models.str_method(I, collapse_ws(a[0]).t, 'strip', [], {})
+
+    def i18n0(I, a, k, n):
+        d, c, t = I.ghost['i18n0']
+        return {'domain': d, 'context': c, 'target_language': t}[_c(a[0])]
+
+    def i18n_now(I, a, k, n):
+        nm = {'domain': '__i18n_domain', 'context': '__i18n_context',
+              'target_language': 'target_language'}[_c(a[0])]
+        return I.env[nm]
+
+    def i18n_at(I, a, k, n):
+        kind, nn = _ev_key(_c(a[0]))
+        evs = [ev for ev in I.ghost['T'] if ev[0] == kind and ev[1] == nn]
+        if not evs or kind != 'hole':
+            return fresh(ANY, 'no_such_event')
+        d, c, t = evs[-1][4]
+        return {'domain': d, 'context': c, 'target_language': t}[_c(a[1])]
+
+    def ext_count(I, a, k, n):
+        return VInt(len(I.ghost.get('extcalls', [])))
+
+    def _ext(I, i):
+        xs = I.ghost.get('extcalls', [])
+        return xs[i] if i < len(xs) else None
+
+    def ext_raised(I, a, k, n):
+        x = _ext(I, _c(a[0]))
+        return VBool(bool(x and x.get('raised')))
+
+    def ext_callee(I, a, k, n):
+        x = _ext(I, _c(a[0]))
+        return x['callee'] if x else fresh(ANY, 'no_such_call')
+
+    def ext_result(I, a, k, n):
+        x = _ext(I, _c(a[0]))
+        return x.get('result', fresh(ANY, 'no_result')) if x else fresh(ANY, 'no_such_call')
+
+    def ext_arg(I, a, k, n):
+        x = _ext(I, _c(a[0]))
+        j = _c(a[1])
+        if not x or j >= len(x['args']):
+            return fresh(ANY, 'no_such_arg')
+        return x['args'][j]
+
+    def ext_out(I, a, k, n):
+        x = _ext(I, _c(a[0]))
+        return VStr(x['out']) if x and 'out' in x else VStr(z3.String(fresh_name('no_out')))
+
+    def ext_last(I, a, k, n):
+        return VInt(len(I.ghost.get('extcalls', [])) - 1)
+
+    def ext_i18n(I, a, k, n):
+        x = _ext(I, _c(a[0]))
+        d, c, t = x['i18n'] if x else I.ghost['i18n0']
+        return {'domain': d, 'context': c, 'target_language': t}[_c(a[1])]
+
+    def is_stream(I, a, k, n):
+        return VBool(a[0] is I.ghost['stream'])
+
+    def is_rcontext(I, a, k, n):
+        return VBool(a[0] is I.ghost['rcontext'])
+
+    def is_scope_copy(I, a, k, n):
+        """the argument is a fresh copy of the caller's scope (never the scope itself)"""
+        v = a[0]
+        return VBool(isinstance(v, VRec) and v.cls == SCOPE and v is not I.ghost['econtext']
+                     and v.fields.get('copy_of') is I.ghost['econtext'])
+
+    def scope_arg_visible(I, a, k, n):
+        """binding of a name in a Scope object that was passed as an argument"""
+        present, value = scope_visible(a[0], a[1])
+        return _bound_value(present, value)
+
+    def attr_of(I, a, k, n):
+        f = z3.Function('attr_' + _c(a[1]), Val, Val)
+        return VAny(f(to_any(a[0]).t))
+
+    def module_function(I, a, k, n):
+        return I.ghost.get('module_functions', {}).get(_c(a[0]), fresh(ANY, 'no_such_function'))
+
+    def globals_visible(I, a, k, n):
+        """every entry of the render-wide context is visible in the scope with that value
+        (names listed as arguments excepted)"""
+        names = [_c(x) for x in a]
+        m = I.ghost['rcontext'].fields['m']
+        ec = I.ghost['econtext']
+        kq = z3.String(fresh_name('kg'))
+        present, value = scope_visible(ec, VStr(kq))
+        excl = [kq == z3.StringVal(nm) for nm in names]
+        return VBool(z3.ForAll([kq], z3.Implies(
+            z3.And(z3.Select(m.has, kq), z3.Not(z3.Or(excl + [z3.BoolVal(False)]))),
+            z3.And(present, value == z3.Select(m.val, kq)))))
+
     def in_local(I, a, k, n):
         lo = I.ghost['econtext'].fields['local']
         return VBool(z3.Select(lo.has, models.strterm(a[0])))
@@ -677,13 +912,19 @@ def k3_prims():
     def token_pos(I, a, k, n):
         """source position recorded in the token table for the expression text eN"""
         name = 'e%d' % _c(a[0])
-        ps = [p for p, (txt, ln, col) in I.ghost['tokens'].items() if txt.strip() == name]
-        return VInt(ps[0]) if ps else VInt(-1)
+        # the token of the expression occurrence that contains this probe (for `a | b` and
+        # prefixed expressions that is the whole TALES expression)
+        ps = [p for p, (txt, ln, col) in I.ghost['tokens'].items()
+              if re.search(r'\b%s\b' % name, txt)]
+        return VInt(ps[0]) if len(ps) == 1 else VInt(-1)
 
     return {f.__name__: (lambda I, a, k, n, f=f: f(I, a, k, n)) for f in
-            (S, S0, piece, out, val, evals, holes, trace, raised, exc_is_exception, quoted,
+            (S, S0, piece, out, val, evals, holes, trace, raised, exc_in, exc_is_exception, quoted,
              converted, visible, UNBOUND, visible0, visible_at, DEFAULT, local, rlen, ritem, acc, out_at,
-             scope_frame, in_local, global_now, handler_calls, handler_configured,
+             scope_frame, ext_count, ext_last, ext_raised, ext_callee, ext_result, ext_arg, ext_out, ext_i18n, is_stream,
+             is_rcontext, is_scope_copy, scope_arg_visible, attr_of, module_function, globals_visible,
+             in_local, translate_arg, translate_result, normalize, i18n0,
+             i18n_now, i18n_at, global_now, handler_calls, handler_configured,
              translate_calls, quote_calls, errorinfo_of, token_at_eval, token_pos)}
 
 
@@ -743,11 +984,34 @@ def schema_contracts(specs):
             out.append(c)
             continue
         em = Emitted(r['source'], s.get('fname', 'render'))
+        # C12: whenever an expression is evaluated, __token is the position of exactly that
+        # expression's text (so a failure is reported against the right expression)
+        probes = sorted({int(m) for m in re.findall(r'\be(\d+)\b', s['text'])})
+        tok = ["evals(%d) == 0 or token_at_eval(%d) == token_pos(%d)" % (n, n, n) for n in probes]
+        s = dict(s, ensures=list(s.get('ensures', [])) + tok)
+        rz = {k: dict(v, ensures=list(v.get('ensures', [])) + tok) for k, v in s.get('raises', {}).items()}
+        if '*' not in rz:
+            rz['*'] = {'ensures': ["False"] + tok} if not probes and '__hole__' not in s['text'] \
+                else {'ensures': tok}
+        s['raises'] = rz
+        static = []
+        for pos, (txt, ln, col) in sorted(em.tokens.items()):
+            src = s['text']
+            ok = src[pos:pos + len(txt)] == txt
+            before = src[:pos]
+            ok_lc = (ln == before.count('\n') + 1) and (col == pos - (before.rfind('\n') + 1))
+            static.append(('%s.token_table[%d].anchored' % (s['id'], pos), ok,
+                           'source[%d:%d] == %r' % (pos, pos + len(txt), txt),
+                           {'template': src, 'entry': [pos, txt, ln, col], 'source_slice': src[pos:pos + len(txt)]}))
+            static.append(('%s.token_table[%d].line_col' % (s['id'], pos), ok_lc,
+                           'line/column %d:%d belong to offset %d' % (ln, col, pos),
+                           {'template': src, 'entry': [pos, txt, ln, col]}))
         c = Contract('k3::%s' % s['id'], params={}, source=(em.schema_text(), 'schema'),
                      kind='K3', ensures=s.get('ensures', []), raises=s.get('raises', {}),
                      loops=s.get('loops', {}), serves=s.get('serves', []),
                      ghost={'entry': k3_entry(em, s), 'template': s['text'], 'emitted': em,
                             'k3': True, 'options': s.get('options', {}), 'spec': s,
+                            'static_checks': static,
                             'replay_kind': s.get('replay_kind')},
                      notes=s.get('notes', ''), max_paths=s.get('max_paths'))
         out.append(c)
